@@ -10,6 +10,7 @@ Simple ==
     Op("open", "ok", FALSE, "none", "none"), Op("open", "bad", FALSE, "none", "none"),
     Op("open", "mixed", FALSE, "none", "none"), Op("open", "empty", FALSE, "none", "none"),
     Op("open", "longbatch", FALSE, "none", "none"), Op("delete", "huge", FALSE, "none", "none"),
+    Op("delete", "emptypath", FALSE, "none", "none"),
     Op("delete", "ok", FALSE, "none", "none"), Op("delete", "bad", FALSE, "none", "none"),
     Op("symlink", "ok", FALSE, "none", "none"), Op("symlink", "bad", FALSE, "none", "none"),
     Op("symlink", "empty", FALSE, "none", "none") }
@@ -17,7 +18,7 @@ Fails == {"noent", "noentabs", "noexec", "enoexec", "dir", "emptyargs", "hugearg
 \* every exec variant: what to run x sync mode x callback x cancellation
 ExecAll ==
   { Op("exec", v, sa, cb, c) :
-      v \in Fails \cup {"run", "runslow", "term", "sleep"}, sa \in BOOLEAN, cb \in {"none", "ok", "fail"},
+      v \in Fails \cup {"run", "runslow", "term", "sleep", "fdexec", "envrun"}, sa \in BOOLEAN, cb \in {"none", "ok", "fail"},
       c \in {"none", "pre", "running", "race"} }
 \* a sleeping program needs a cancel (or a failing callback) to end
 Sane(o) == o.v = "sleep" => (o.cancel \in {"pre", "running"} \/ o.cb = "fail")
@@ -56,12 +57,23 @@ Loss == { [ops |-> pre \o <<[k |-> how, v |-> "", sa |-> FALSE, cb |-> "none", c
            pre \in { <<>>, <<Run>>, <<Op("exec", "enoexec", FALSE, "ok", "none")>> },
            post \in { <<Ping>>, <<Run, Ping>>, <<Op("open", "ok", FALSE, "none", "none"), RunA>>, <<Op("reset", "", FALSE, "none", "none"), Ping, Ping>> } }
 
+\* (g) carry-over: a request whose field is left at its zero value right after a request that set it
+\* (executable descriptor, environment, path, batch) -- host and container must agree on THIS command
+Carry ==
+  { H(<<a, b>>, "", "") : a \in { Op("exec", "fdexec", sa, cb, "none") : sa \in BOOLEAN, cb \in {"none", "ok"} }
+                               \cup { Op("exec", "envrun", sa, "ok", "none") : sa \in BOOLEAN },
+                        b \in { Op("exec", "run", sa, "ok", "none") : sa \in BOOLEAN } }
+  \cup { H(<<Op("delete", "ok", FALSE, "none", "none"), Op("delete", "emptypath", FALSE, "none", "none")>>, "", ""),
+         H(<<Op("open", "ok", FALSE, "none", "none"), Op("open", "empty", FALSE, "none", "none")>>, "", ""),
+         H(<<Op("open", "mixed", FALSE, "none", "none"), Op("open", "empty", FALSE, "none", "none")>>, "", ""),
+         H(<<Op("symlink", "ok", FALSE, "none", "none"), Op("symlink", "empty", FALSE, "none", "none")>>, "", ""),
+         H(<<Op("exec", "enoexec", FALSE, "ok", "none"), Op("exec", "fdexec", FALSE, "ok", "none")>>, "", "") }
 \* (f) transport loss while a reply is pending (gate "stale"): a stale reply must never satisfy a later call
 Stale == { [ops |-> <<Op("exec", v, sa, "ok", "none")>> \o post, gate |-> "stale", delays |-> ""] :
             v \in {"run", "runslow"}, sa \in BOOLEAN,
             post \in { <<Ping, Ping, Ping, Ping>>, <<Run, Ping, Ping>>, <<Op("reset", "", FALSE, "none", "none"), Ping, RunA>>,
                        <<Op("open", "ok", FALSE, "none", "none"), Ping, Ping>> } }
-All == Singles \cup Pairs \cup Races \cup Rand \cup Loss \cup Stale
+All == Singles \cup Pairs \cup Races \cup Rand \cup Loss \cup Stale \cup Carry
 ASSUME ndJsonSerialize("histories.ndjson", SetToSeq(All))
 ASSUME PrintT(<<"histories", Cardinality(Singles), Cardinality(Pairs), Cardinality(Races), Cardinality(Rand), Cardinality(Loss)>>)
 VARIABLE x
